@@ -294,7 +294,9 @@ Lemma track_numeric s u off : NI s -> pow_in_unit (u_pow u) = true -> in_i64 off
   exists s' evs q, do_track s u off = (s', evs, q) /\ NI s' /\
     p_mode s' = 3%Z /\ p_t0 s' = p_t0 s /\ p_t s' = u_now u /\ p_epoch s' = p_epoch s /\
     ((evs = [] /\ g = 0%Z) \/ exists o d f, evs = [EAdjust o d f] /\ fis_finite f = true /\
-       ((g < max_gap_ns)%Z -> (sec_ns <= d /\ d <= sec_ns * ceil_div g sec_ns /\ 2000 * Z.abs o <= d)%Z)).
+       ((g < max_gap_ns)%Z -> (sec_ns <= d /\ d <= sec_ns * ceil_div g sec_ns /\ 2000 * Z.abs o <= d)%Z) /\
+       ((g <= wrap_gap_ns)%Z ->
+          (sec_ns <= d /\ d <= sec_ns * ceil_div g sec_ns + 1024 /\ Z.abs o <= 500000 * ceil_div g sec_ns + 1)%Z)).
 Proof.
   intros HNI Hw Hoff Hm Hg g. unfold do_track.
   destruct (Z.ltb_spec (tsub (u_now u) (p_t0 s)) 0) as [C|_]; [lia|].
@@ -346,17 +348,26 @@ Proof.
       assert (Gt : R d > R fzero) by (rewrite Rd; cbn; apply IZR_lt; lia).
       apply (fgt_fin d fzero Fd eq_refl) in Gt. congruence. }
   right. eexists _, _, _. split; [reflexivity|]. split; [exact Fi'|].
-  intros Hgap.
   apply (fgt_fin d fzero Fd eq_refl) in Gd. rewrite Rd in Gd. cbn in Gd.
   assert (N2 : (1 <= n)%Z) by (apply lt_IZR in Gd; lia).
-  assert (Q1 : (g / E9 < 4294967296)%Z).
-  { apply Z.div_lt_upper_bound; [unfold E9; lia|]. unfold max_gap_ns, sec_ns, E9 in *. lia. }
-  destruct (slew_numeric d p n Fd Rd) as [Ed Eo]; [lia|exact Fp|].
-  rewrite Ed. rewrite ceil_div_spec by lia. fold E9 in *. change sec_ns with E9.
   assert (N3 : (n <= g / E9 + (if (g mod E9 =? 0)%Z then 0 else 1))%Z).
   { destruct (Z.eqb_spec (g mod E9) 0) as [Z0|Z0]; [|lia].
     specialize (Dex Z0). subst n. rewrite Dex, Zceil_IZR. lia. }
-  unfold E9 in *. lia.
+  split.
+  - intros Hgap.
+    assert (Q1 : (g / E9 < 4294967296)%Z).
+    { apply Z.div_lt_upper_bound; [unfold E9; lia|]. unfold max_gap_ns, sec_ns, E9 in *. lia. }
+    destruct (slew_numeric d p n Fd Rd) as [Ed Eo]; [lia|exact Fp|].
+    rewrite Ed. rewrite ceil_div_spec by lia. fold E9 in *. change sec_ns with E9.
+    unfold E9 in *. lia.
+  - intros Hgap.
+    assert (Q1 : (g / E9 + (if (g mod E9 =? 0)%Z then 0 else 1) <= 9223372036)%Z).
+    { unfold wrap_gap_ns, sec_ns, E9 in *. pose proof (Z.div_mod g 1000000000).
+      pose proof (Z.mod_pos_bound g 1000000000).
+      destruct (Z.eqb_spec (g mod 1000000000) 0); lia. }
+    destruct (slew_numeric_wide d p n Fd Rd) as [Ed Eo]; [lia|exact Fp|].
+    rewrite ceil_div_spec by lia. fold E9 in *. change sec_ns with E9.
+    unfold E9 in *. lia.
 Qed.
 
 Close Scope R_scope.
@@ -366,14 +377,22 @@ Close Scope R_scope.
 
 Definition upd_ok (u : upd) : Prop := in_i64 (u_off u) /\ pow_in_unit (u_pow u) = true.
 
-Fixpoint nondecreasing_from (prev : Z) (us : list upd) : Prop :=
+(* a condition P on the gap between consecutive updates that report the same
+   epoch; across an epoch change the readings are unconstrained *)
+Fixpoint chain_from (P : Z -> Prop) (pe pn : Z) (us : list upd) : Prop :=
   match us with
   | [] => True
-  | u :: r => prev <= u_now u /\ nondecreasing_from (u_now u) r
+  | u :: r => (pe = u_epoch u -> P (u_now u - pn)) /\ chain_from P (u_epoch u) (u_now u) r
   end.
 
-Definition nondecreasing (us : list upd) : Prop :=
-  match us with [] => True | u :: r => nondecreasing_from (u_now u) r end.
+Definition chain (P : Z -> Prop) (us : list upd) : Prop :=
+  match us with [] => True | u :: r => chain_from P (u_epoch u) (u_now u) r end.
+
+(* readings do not go backwards within an epoch (they may jump arbitrarily,
+   also backwards, when the epoch changes: a step of the clock) *)
+Definition epoch_monotone : list upd -> Prop := chain (fun g => 0 <= g).
+(* no two consecutive updates of one epoch are more than 9223372036 s apart *)
+Definition gaps_below_wrap : list upd -> Prop := chain (fun g => g <= wrap_gap_ns).
 
 (* model state and oracle state after at least one update *)
 Definition Rel (s : pll) (o : ost) : Prop :=
@@ -417,13 +436,12 @@ Proof.
 Qed.
 
 Lemma ost_step_restart o u :
-  (o = ost_init \/ (o_started o = true /\ o_mono o = true /\ o_prev o <= u_now u /\ o_epoch o <> u_epoch u)) ->
+  (o_started o = false \/ o_epoch o <> u_epoch u) ->
   ost_step o u [] = (true, mkOst true true (u_now u) (u_epoch u) (u_now u) false false).
 Proof.
-  intros [->|[S [M [P E]]]]; [reflexivity|].
-  unfold ost_step. rewrite S, M. cbn [negb andb orb].
-  destruct (Z.leb_spec (o_prev o) (u_now u)); [|lia]. cbn [negb].
-  destruct (Z.eqb_spec (o_epoch o) (u_epoch u)); [contradiction|]. reflexivity.
+  intros H. unfold ost_step. destruct H as [S|E].
+  - rewrite S. reflexivity.
+  - destruct (Z.eqb_spec (o_epoch o) (u_epoch u)); [contradiction|]. rewrite orb_true_r. reflexivity.
 Qed.
 
 Lemma ost_step_same o u evs :
@@ -432,39 +450,33 @@ Lemma ost_step_same o u evs :
     let '(ok, dec, sl) := ost_calls o u evs in
     (ok, mkOst true true (u_now u) (u_epoch u) (o_start o) dec sl).
 Proof.
-  intros S M P E. unfold ost_step. rewrite S, M. cbn [negb andb orb].
-  destruct (Z.leb_spec (o_prev o) (u_now u)); [|lia]. cbn [negb].
-  rewrite E, Z.eqb_refl. reflexivity.
+  intros S M P E. unfold ost_step. rewrite S, M, E, Z.eqb_refl. cbn [negb andb orb].
+  destruct (Z.leb_spec (o_prev o) (u_now u)); [|lia]. reflexivity.
 Qed.
 
-(* the oracle never accepts a panic while the readings are non-decreasing *)
-Lemma ost_step_no_panic o u evs o' :
-  o_mono o = true -> (o_started o = true -> o_prev o <= u_now u) ->
-  ost_step o u evs = (true, o') -> ~ In EPanic evs.
+Lemma ost_step_fields o u evs :
+  o_prev (snd (ost_step o u evs)) = u_now u /\ o_epoch (snd (ost_step o u evs)) = u_epoch u.
 Proof.
-  intros M P. unfold ost_step. rewrite M. cbn [andb].
-  destruct (o_started o) eqn:S; cbn [negb orb].
-  2:{ destruct evs; [intros _ []|cbn; discriminate]. }
-  specialize (P eq_refl). destruct (Z.leb_spec (o_prev o) (u_now u)); [|lia]. cbn [negb].
-  destruct (negb (o_epoch o =? u_epoch u)).
-  { destruct evs; [intros _ []|cbn; discriminate]. }
-  unfold ost_calls. destruct (negb (o_decided o)).
-  - destruct (step_due o u).
-    + destruct (step_min_ns <? Z.abs (u_off u)).
-      * destruct evs as [|[x|a b c|] [|e2 r]]; try (cbn; discriminate). intros _ [K|[]]. discriminate.
-      * destruct evs; [intros _ []|cbn; discriminate].
-    + destruct evs; [intros _ []|cbn; discriminate].
-  - destruct evs as [|[x|a b c|] [|e2 r]]; try (cbn; discriminate); [intros _ []|].
-    intros _ [K|[]]. discriminate.
+  unfold ost_step. destruct (negb (o_started o) || negb (o_epoch o =? u_epoch u)); [split; reflexivity|].
+  destruct (negb (o_mono o && (o_prev o <=? u_now u))); [split; reflexivity|].
+  destruct (ost_calls o u evs) as [[ok dec] sl]. split; reflexivity.
 Qed.
 
-Lemma startup_case s o u : p_mode (sync_epoch s u) = 0 -> NI s ->
+(* what one update establishes: the calls, the oracle's verdict ok with its next
+   state, the invariant, no panic; the verdict is "accepted" when the gap to the
+   previous update of the epoch is below the int64 wrap G *)
+Definition step_result (s : pll) (o : ost) (u : upd) (G : Prop) : Prop :=
+  exists s' evs q ok o', pll_do s u = (s', evs, q) /\ ost_step o u evs = (ok, o') /\ Rel s' o' /\
+    ~ In EPanic evs /\ (G -> ok = true).
+
+Lemma startup_case s o u G : p_mode (sync_epoch s u) = 0 -> NI s ->
   ost_step o u [] = (true, mkOst true true (u_now u) (u_epoch u) (u_now u) false false) ->
-  exists s' evs q o', pll_do s u = (s', evs, q) /\ ost_step o u evs = (true, o') /\ Rel s' o'.
+  step_result s o u G.
 Proof.
-  intros M HNI HO. rewrite (pll_do_0 s u M). unfold do_startup.
-  eexists _, _, _, _. split; [reflexivity|]. split; [exact HO|].
+  intros M HNI HO. unfold step_result. rewrite (pll_do_0 s u M). unfold do_startup.
+  eexists _, _, _, _, _. split; [reflexivity|]. split; [exact HO|].
   destruct (sync_epoch_fields s u) as [Ee [_ [_ [Ea [Eb Ei]]]]].
+  split; [|split; [intros []|reflexivity]].
   rel_intro.
   - left. repeat split; reflexivity.
   - unfold NI in *. cbn [p_a p_b p_i]. rewrite Ea, Eb, Ei. exact HNI.
@@ -487,15 +499,15 @@ Proof.
   destruct (Z.ltb_spec 1000000 (Z.abs x)); destruct (Z.ltb_spec 1000000 (Z.min (Z.abs x) 9223372036854775807)); lia.
 Qed.
 
-Lemma case_await_step s o u :
+Lemma case_await_step s o u G :
   o_started o = true -> o_mono o = true -> p_epoch s = o_epoch o -> p_t s = o_prev o ->
   o_start o <= p_t0 s -> p_t0 s <= p_t s -> NI s ->
   o_prev o <= u_now u -> in_i64 (u_off u) -> pow_in_unit (u_pow u) = true ->
   p_epoch s = u_epoch u ->
   (p_mode s = 1 /\ p_t0 s = o_start o /\ o_decided o = false /\ o_slewing o = false) ->
-  exists s' evs q o', pll_do s u = (s', evs, q) /\ ost_step o u evs = (true, o') /\ Rel s' o'.
+  step_result s o u G.
 Proof.
-  intros S Mo Ee Et T0a T0b HNI HP Hoff Hw E HMx.
+  intros S Mo Ee Et T0a T0b HNI HP Hoff Hw E HMx. unfold step_result.
   assert (Eo : o_epoch o = u_epoch u) by congruence.
   assert (Hnow : p_t s <= u_now u) by lia.
   assert (Hm : 0 <= tsub (u_now u) (p_t0 s)) by (apply tsub_nonneg; lia).
@@ -506,33 +518,33 @@ Proof.
   assert (SD : ((step_wait_ns <? tsub (u_now u) (p_t0 s)) && fgt (u_weight u) c_3) = step_due o u).
   { unfold step_due. rewrite <- T0. rewrite (wait_sat (u_now u) (p_t0 s)). reflexivity. }
   rewrite SD. destruct (step_due o u) eqn:Due.
-  2:{ eexists _, _, _, _. split; [reflexivity|]. split.
+  2:{ eexists _, _, _, _, _. split; [reflexivity|]. split; [|split; [|split; [intros []|reflexivity]]].
       - rewrite (ost_step_same o u _ S Mo HP Eo). unfold ost_calls. rewrite Dc, Due. reflexivity.
       - unfold set_t. rel_intro; [left; repeat split; assumption|exact HNI]. }
   rewrite dur_abs_inv by exact Hoff.
   pose proof (min_abs_lt (u_off u)) as AB.
   rewrite AB. destruct (step_min_ns <? Z.abs (u_off u)) eqn:A.
-  + eexists _, _, _, _. split; [reflexivity|]. split.
+  + eexists _, _, _, _, _. split; [reflexivity|]. split; [|split; [|split; [intros [K|[]]; discriminate|reflexivity]]].
     * rewrite (ost_step_same o u _ S Mo HP Eo). unfold ost_calls. rewrite Dc, Due, A. cbn [negb].
       replace (step_arg_ok (u_off u) (inv (inv (u_off u)))) with true; [reflexivity|].
       unfold step_arg_ok. destruct (Z.eqb_spec (u_off u) min_i64) as [N|N].
       -- rewrite N, inv_inv_min, Z.eqb_refl. cbn [andb]. symmetry. apply orb_true_r.
       -- rewrite inv_inv by assumption. rewrite Z.eqb_refl. reflexivity.
     * rel_intro; [right; left; repeat split; reflexivity|exact HNI].
-  + eexists _, _, _, _. split; [reflexivity|]. split.
+  + eexists _, _, _, _, _. split; [reflexivity|]. split; [|split; [|split; [intros []|reflexivity]]].
     * rewrite (ost_step_same o u _ S Mo HP Eo). unfold ost_calls. rewrite Dc, Due, A. reflexivity.
     * rel_intro; [right; left; repeat split; reflexivity|exact HNI].
 Qed.
 
-Lemma case_await_pll s o u :
+Lemma case_await_pll s o u G :
   o_started o = true -> o_mono o = true -> p_epoch s = o_epoch o -> p_t s = o_prev o ->
   o_start o <= p_t0 s -> p_t0 s <= p_t s -> NI s ->
   o_prev o <= u_now u -> in_i64 (u_off u) -> pow_in_unit (u_pow u) = true ->
   p_epoch s = u_epoch u ->
   (p_mode s = 2 /\ o_decided o = true /\ o_slewing o = false) ->
-  exists s' evs q o', pll_do s u = (s', evs, q) /\ ost_step o u evs = (true, o') /\ Rel s' o'.
+  step_result s o u G.
 Proof.
-  intros S Mo Ee Et T0a T0b HNI HP Hoff Hw E HMx.
+  intros S Mo Ee Et T0a T0b HNI HP Hoff Hw E HMx. unfold step_result.
   assert (Eo : o_epoch o = u_epoch u) by congruence.
   assert (Hnow : p_t s <= u_now u) by lia.
   assert (Hm : 0 <= tsub (u_now u) (p_t0 s)) by (apply tsub_nonneg; lia).
@@ -541,12 +553,12 @@ Proof.
   unfold do_await_pll.
   destruct (Z.ltb_spec (tsub (u_now u) (p_t0 s)) 0) as [C|_]; [lia|].
   destruct (Z.ltb_spec pll_wait_ns (tsub (u_now u) (p_t0 s))) as [W6|W6].
-  + eexists _, _, _, _. split; [reflexivity|]. split.
+  + eexists _, _, _, _, _. split; [reflexivity|]. split; [|split; [|split; [intros []|reflexivity]]].
     * rewrite (ost_step_same o u _ S Mo HP Eo). unfold ost_calls. rewrite Dc, Sl. reflexivity.
     * rel_intro; [right; right; split; reflexivity|].
       destruct HNI as [_ [_ [_ [_ HI]]]]. unfold NI. cbn [p_a p_b p_i].
       destruct c_pinit_b as [F1 B1]. destruct c_binit_b as [F2 B2]. tauto.
-  + eexists _, _, _, _. split; [reflexivity|]. split.
+  + eexists _, _, _, _, _. split; [reflexivity|]. split; [|split; [|split; [intros []|reflexivity]]].
     * rewrite (ost_step_same o u _ S Mo HP Eo). unfold ost_calls. rewrite Dc, Sl. reflexivity.
     * unfold set_t. rel_intro; [right; left; repeat split; assumption|exact HNI].
 Qed.
@@ -557,9 +569,9 @@ Lemma case_track s o u :
   o_prev o <= u_now u -> in_i64 (u_off u) -> pow_in_unit (u_pow u) = true ->
   p_epoch s = u_epoch u ->
   (p_mode s = 3 /\ o_decided o = true) ->
-  exists s' evs q o', pll_do s u = (s', evs, q) /\ ost_step o u evs = (true, o') /\ Rel s' o'.
+  step_result s o u (u_now u - o_prev o <= wrap_gap_ns).
 Proof.
-  intros S Mo Ee Et T0a T0b HNI HP Hoff Hw E HMx.
+  intros S Mo Ee Et T0a T0b HNI HP Hoff Hw E HMx. unfold step_result.
   assert (Eo : o_epoch o = u_epoch u) by congruence.
   assert (Hnow : p_t s <= u_now u) by lia.
   assert (Hm : 0 <= tsub (u_now u) (p_t0 s)) by (apply tsub_nonneg; lia).
@@ -568,8 +580,8 @@ Proof.
   assert (Hg : 0 <= tsub (u_now u) (p_t s)) by (apply tsub_nonneg; lia).
   destruct (track_numeric s u (inv (u_off u)) HNI Hw (inv_in_i64 _ Hoff) Hm Hg)
     as [s' [evs [q [ED [HNI' [M' [T0' [T' [E' HE]]]]]]]]].
-  exists s', evs, q. destruct HE as [[-> G0]|[oo [d [f [-> [Ff HN]]]]]].
-  + eexists. split; [exact ED|]. split.
+  exists s', evs, q. destruct HE as [[-> G0]|[oo [d [f [-> [Ff [HN HW]]]]]]].
+  + eexists _, _. split; [exact ED|]. split; [|split; [|split; [intros []|reflexivity]]].
     * rewrite (ost_step_same o u _ S Mo HP Eo). unfold ost_calls. rewrite Dc. cbn [negb].
       assert (NP : (u_now u <=? o_prev o) = true).
       { apply Z.leb_le. unfold tsub in G0. rewrite Et in G0.
@@ -581,92 +593,88 @@ Proof.
       rewrite NP, orb_true_r. reflexivity.
     * apply Rel_intro; cbn [o_started o_mono o_epoch o_prev o_start o_decided o_slewing]; rewrite ?M', ?T0', ?T', ?E';
         [reflexivity|reflexivity|assumption|reflexivity|lia|lia|right; right; split; reflexivity|exact HNI'].
-  + eexists. split; [exact ED|]. split.
-    * rewrite (ost_step_same o u _ S Mo HP Eo). unfold ost_calls. rewrite Dc. cbn [negb].
-      replace (adjust_ok o u oo d f) with true; [reflexivity|]. symmetry.
-      unfold adjust_ok. rewrite Ff. cbn [andb].
-      destruct (Z.ltb_spec (u_now u - o_prev o) max_gap_ns) as [Gp|Gp]; [|reflexivity].
-      assert (Eg : tsub (u_now u) (p_t s) = u_now u - o_prev o).
-      { unfold tsub. rewrite Et. apply sat64_small. unfold max_gap_ns, sec_ns, max_i64 in *. lia. }
-      rewrite Eg in HN. destruct (HN Gp) as [N1 [N2 N3]].
-      destruct (Z.ltb_spec 0 d); [|unfold sec_ns in *; lia]. destruct (Z.leb_spec d (sec_ns * ceil_div (u_now u - o_prev o) sec_ns)); [|lia].
-      destruct (Z.leb_spec (2000 * Z.abs oo) d); [|lia]. reflexivity.
+  + eexists _, _. split; [exact ED|]. split; [|split; [|split; [intros [K|[]]; discriminate|]]].
+    * rewrite (ost_step_same o u _ S Mo HP Eo). unfold ost_calls. rewrite Dc. cbn [negb]. reflexivity.
     * apply Rel_intro; cbn [o_started o_mono o_epoch o_prev o_start o_decided o_slewing]; rewrite ?M', ?T0', ?T', ?E';
         [reflexivity|reflexivity|assumption|reflexivity|lia|lia|right; right; split; reflexivity|exact HNI'].
+    * intros Gw. unfold adjust_ok. rewrite Ff. cbn [andb].
+      assert (Eg : tsub (u_now u) (p_t s) = u_now u - o_prev o).
+      { unfold tsub. rewrite Et. apply sat64_small. unfold wrap_gap_ns, sec_ns, max_i64 in *. lia. }
+      rewrite Eg in HN, HW. destruct (HW Gw) as [W1 [W2 W3]].
+      destruct (Z.ltb_spec 0 d); [|unfold sec_ns in *; lia]. cbn [andb].
+      destruct (Z.ltb_spec (u_now u - o_prev o) max_gap_ns) as [Gp|Gp].
+      -- destruct (HN Gp) as [N1 [N2 N3]].
+         destruct (Z.leb_spec d (sec_ns * ceil_div (u_now u - o_prev o) sec_ns)); [|lia].
+         destruct (Z.leb_spec (2000 * Z.abs oo) d); [|lia]. reflexivity.
+      -- destruct (Z.leb_spec d (sec_ns * ceil_div (u_now u - o_prev o) sec_ns + 1024)); [|lia].
+         destruct (Z.leb_spec (Z.abs oo) (500000 * ceil_div (u_now u - o_prev o) sec_ns + 1)); [|lia]. reflexivity.
 Qed.
 
-Lemma inv_step s o u : (Rel0 s o \/ Rel s o) -> (o_started o = true -> o_prev o <= u_now u) -> upd_ok u ->
-  exists s' evs q o', pll_do s u = (s', evs, q) /\ ost_step o u evs = (true, o') /\ Rel s' o'.
+Definition gap_ok (o : ost) (u : upd) : Prop :=
+  o_started o = true -> o_epoch o = u_epoch u -> u_now u - o_prev o <= wrap_gap_ns.
+
+Lemma step_result_weaken s o u (G G' : Prop) : (G' -> G) -> step_result s o u G -> step_result s o u G'.
+Proof.
+  intros H [s' [evs [q [ok [o' [A [B [C [D F]]]]]]]]]. exists s', evs, q, ok, o'. tauto.
+Qed.
+
+Lemma inv_step s o u : (Rel0 s o \/ Rel s o) ->
+  (o_started o = true -> o_epoch o = u_epoch u -> o_prev o <= u_now u) -> upd_ok u ->
+  step_result s o u (gap_ok o u).
 Proof.
   intros HR HP [Hoff Hw]. destruct HR as [[-> [M0 HNI]]|HR].
   { apply startup_case; [|exact HNI|apply ost_step_restart; left; reflexivity].
     unfold sync_epoch. destruct (p_epoch s =? u_epoch u); [exact M0|reflexivity]. }
-  destruct HR as [S [Mo [Ee [Et [[T0a T0b] [HM HNI]]]]]]. specialize (HP S).
+  destruct HR as [S [Mo [Ee [Et [[T0a T0b] [HM HNI]]]]]].
   destruct (Z.eq_dec (p_epoch s) (u_epoch u)) as [E|E].
   2:{ apply startup_case; [apply sync_epoch_diff_mode; exact E|exact HNI|].
-      apply ost_step_restart. right. repeat split; try assumption. congruence. }
+      apply ost_step_restart. right. congruence. }
+  assert (Eo : o_epoch o = u_epoch u) by congruence. specialize (HP S Eo).
   destruct HM as [HM|[HM|HM]].
   - apply case_await_step; assumption.
   - apply case_await_pll; assumption.
-  - apply case_track; assumption.
+  - apply (step_result_weaken s o u (u_now u - o_prev o <= wrap_gap_ns)); [intros Gk; exact (Gk S Eo)|].
+    apply case_track; assumption.
 Qed.
 
-Lemma Rel_prev s o : Rel s o -> o_started o = true /\ o_prev o = p_t s.
-Proof. intros [S [_ [_ [Et _]]]]. split; [exact S|symmetry; exact Et]. Qed.
+Lemma Rel_prev s o : Rel s o -> o_started o = true /\ o_prev o = p_t s /\ o_epoch o = p_epoch s.
+Proof. intros [S [_ [Ee [Et _]]]]. split; [exact S|]. split; symmetry; assumption. Qed.
 
-Lemma Rel_step_prev s o u s' evs q o' : (Rel0 s o \/ Rel s o) ->
-  (o_started o = true -> o_prev o <= u_now u) -> upd_ok u ->
-  pll_do s u = (s', evs, q) -> ost_step o u evs = (true, o') -> Rel s' o' -> p_t s' = u_now u.
-Proof.
-  intros HR HP [Hoff Hw] ED _ _.
-  assert (K : p_t (state_of (pll_do s u)) = u_now u \/ In EPanic (events (pll_do s u))).
-  { rewrite pll_do_mode. cbv zeta. destruct (sync_epoch_fields s u) as [_ [_ [Et _]]].
-    set (s1 := sync_epoch s u) in *.
-    destruct (p_mode s1 =? 0); [left; reflexivity|].
-    destruct (p_mode s1 =? 1).
-    { unfold do_await_step. destruct (_ <? 0); [right; left; reflexivity|].
-      destruct (_ && _); left; reflexivity. }
-    destruct (p_mode s1 =? 2).
-    { unfold do_await_pll. destruct (_ <? 0); [right; left; reflexivity|].
-      destruct (_ <? _); left; reflexivity. }
-    destruct (p_mode s1 =? 3).
-    { unfold do_track. destruct (_ <? 0); [right; left; reflexivity|].
-      destruct (flt _ _); [right; left; reflexivity|].
-      destruct (gains _ _ _ _) as [[[[la lb] a] b] q']. left. reflexivity. }
-    right. left. reflexivity. }
-  rewrite ED in K. unfold state_of, events in K. cbn [fst snd] in K.
-  destruct K as [K|K]; [exact K|]. exfalso.
-  destruct (inv_step s o u HR HP (conj Hoff Hw)) as [s2 [evs2 [q2 [o2 [ED2 [HO2 _]]]]]].
-  rewrite ED in ED2. injection ED2 as <- <- <-.
-  (* a panic is never accepted by the oracle in a monotone history *)
-  apply (ost_step_no_panic o u evs o2); [|exact HP|exact HO2|exact K].
-  destruct HR as [[-> _]|[_ [Mo _]]]; [reflexivity|exact Mo].
-Qed.
+(* after an accepted-or-not step the oracle remembers this update's reading and epoch *)
+Lemma step_fields o u evs ok o' : ost_step o u evs = (ok, o') -> o_prev o' = u_now u /\ o_epoch o' = u_epoch u.
+Proof. intros H. pose proof (ost_step_fields o u evs) as F. rewrite H in F. exact F. Qed.
 
-(* main history theorem: for every history with non-decreasing readings, int64
-   offsets and math.Pow answers in [0,1], the oracle accepts the model's trace *)
+(* main history theorem: for every history whose readings are non-decreasing
+   within each epoch, with gaps below the int64 wrap, int64 offsets and math.Pow
+   answers in [0,1], the oracle accepts the model's trace *)
 Lemma oracle_from s o us : (Rel0 s o \/ Rel s o) ->
-  (o_started o = true -> nondecreasing_from (o_prev o) us) ->
-  (o_started o = false -> nondecreasing us) ->
+  (o_started o = true -> chain_from (fun g => 0 <= g) (o_epoch o) (o_prev o) us /\
+                         chain_from (fun g => g <= wrap_gap_ns) (o_epoch o) (o_prev o) us) ->
+  (o_started o = false -> epoch_monotone us /\ gaps_below_wrap us) ->
   Forall upd_ok us -> C19_ok_from o (pll_run s us) = true.
 Proof.
   revert s o. induction us as [|u r IH]; intros s o HR H1 H0 HU; [reflexivity|].
   inversion HU as [|? ? Hu Hr]; subst.
-  assert (HP : o_started o = true -> o_prev o <= u_now u) by (intros S; apply (H1 S)).
-  destruct (inv_step s o u HR HP Hu) as [s' [evs [q [o' [ED [HO HR']]]]]].
-  pose proof (Rel_step_prev s o u s' evs q o' HR HP Hu ED HO HR') as Tn.
+  assert (HP : o_started o = true -> o_epoch o = u_epoch u -> o_prev o <= u_now u).
+  { intros S E. destruct (H1 S) as [[A _] _]. specialize (A E). lia. }
+  assert (HG : gap_ok o u).
+  { intros S E. destruct (H1 S) as [_ [A _]]. exact (A E). }
+  destruct (inv_step s o u HR HP Hu) as [s' [evs [q [ok [o' [ED [HO [HR' [_ Hok]]]]]]]]].
+  rewrite (Hok HG) in HO.
+  destruct (step_fields o u evs true o' HO) as [Pn Pe].
   cbn [pll_run]. rewrite ED. cbn [C19_ok_from]. rewrite HO. cbn [andb].
-  destruct (Rel_prev s' o' HR') as [S' P'].
+  destruct (Rel_prev s' o' HR') as [S' _].
   apply IH; [right; exact HR'| | |exact Hr].
-  - intros _. rewrite P', Tn. destruct (o_started o) eqn:S.
-    + apply (H1 eq_refl).
-    + apply (H0 eq_refl).
+  - intros _. rewrite Pn, Pe. destruct (o_started o) eqn:S.
+    + destruct (H1 eq_refl) as [[_ A] [_ B]]. split; assumption.
+    + destruct (H0 eq_refl) as [A B]. split; assumption.
   - intros C. congruence.
 Qed.
 
-Lemma oracle_holds us : nondecreasing us -> Forall upd_ok us -> C19_ok (pll_run pll_init us) = true.
+Lemma oracle_holds us : epoch_monotone us -> gaps_below_wrap us -> Forall upd_ok us ->
+  C19_ok (pll_run pll_init us) = true.
 Proof.
-  intros HM HU. unfold C19_ok. apply oracle_from; [left|discriminate|intros _; exact HM|exact HU].
+  intros HM HG HU. unfold C19_ok. apply oracle_from; [left|discriminate|intros _; split; assumption|exact HU].
   split; [reflexivity|]. split; [reflexivity|apply NI_init].
 Qed.
 
@@ -703,19 +711,23 @@ Proof.
   unfold events. cbn [fst snd In]. intros [H|[]]. discriminate.
 Qed.
 
+(* the arguments of an Adjust: g = time since the previous update *)
 Definition adjust_sane (s : pll) (u : upd) (o d : Z) (f : f64) : Prop :=
-  fis_finite f = true /\ 0 <= u_now u - p_t s /\
-  (u_now u - p_t s < max_gap_ns ->
-     sec_ns <= d /\ d <= sec_ns * ceil_div (u_now u - p_t s) sec_ns /\ 2000 * Z.abs o <= d).
+  let g := u_now u - p_t s in
+  fis_finite f = true /\ 0 <= g /\
+  (g < max_gap_ns -> sec_ns <= d /\ d <= sec_ns * ceil_div g sec_ns /\ 2000 * Z.abs o <= d) /\
+  (g <= wrap_gap_ns ->
+     sec_ns <= d /\ d <= sec_ns * ceil_div g sec_ns + 1024 /\ Z.abs o <= 500000 * ceil_div g sec_ns + 1).
 
 Lemma adjust_sane_step s ost u : (Rel0 s ost \/ Rel s ost) ->
-  (o_started ost = true -> o_prev ost <= u_now u) -> upd_ok u ->
+  (o_started ost = true -> o_epoch ost = u_epoch u -> o_prev ost <= u_now u) -> upd_ok u ->
   forall o d f, In (EAdjust o d f) (events (pll_do s u)) -> adjust_sane s u o d f.
 Proof.
   intros HR HP [Hoff Hw] o d f H.
   destruct (adjust_only_tracking s u o d f H) as [E M].
   destruct HR as [[_ [M0 _]]|HR]; [lia|].
-  destruct HR as [S [Mo [Ee [Et [[T0a T0b] [_ HNI]]]]]]. specialize (HP S).
+  destruct HR as [S [Mo [Ee [Et [[T0a T0b] [_ HNI]]]]]].
+  assert (Eo : o_epoch ost = u_epoch u) by congruence. specialize (HP S Eo).
   assert (Hnow : p_t s <= u_now u) by lia.
   assert (Hm : 0 <= tsub (u_now u) (p_t0 s)) by (apply tsub_nonneg; lia).
   assert (Hg : 0 <= tsub (u_now u) (p_t s)) by (apply tsub_nonneg; lia).
@@ -723,93 +735,102 @@ Proof.
   destruct (track_numeric s u (inv (u_off u)) HNI Hw (inv_in_i64 _ Hoff) Hm Hg)
     as [s' [evs [q [ED [_ [_ [_ [_ [_ HE]]]]]]]]].
   rewrite ED. unfold events. cbn [fst snd].
-  destruct HE as [[-> _]|[oo [dd [ff [-> [Ff HN]]]]]]; [intros []|].
+  destruct HE as [[-> _]|[oo [dd [ff [-> [Ff [HN HW]]]]]]]; [intros []|].
   intros [H|[]]. injection H as -> -> ->.
-  unfold adjust_sane. split; [exact Ff|]. split; [lia|]. intros Gp.
-  assert (Eg : tsub (u_now u) (p_t s) = u_now u - p_t s).
-  { unfold tsub. apply sat64_small. unfold max_gap_ns, sec_ns, max_i64 in *. lia. }
-  rewrite Eg in HN. apply HN. exact Gp.
+  unfold adjust_sane. cbv zeta. split; [exact Ff|]. split; [lia|].
+  split.
+  - intros Gp.
+    assert (Eg : tsub (u_now u) (p_t s) = u_now u - p_t s).
+    { unfold tsub. apply sat64_small. unfold max_gap_ns, sec_ns, max_i64 in *. lia. }
+    rewrite Eg in HN. apply HN. exact Gp.
+  - intros Gp.
+    assert (Eg : tsub (u_now u) (p_t s) = u_now u - p_t s).
+    { unfold tsub. apply sat64_small. unfold wrap_gap_ns, sec_ns, max_i64 in *. lia. }
+    rewrite Eg in HW. apply HW. exact Gp.
 Qed.
 
 Lemma no_panic_step s ost u : (Rel0 s ost \/ Rel s ost) ->
-  (o_started ost = true -> o_prev ost <= u_now u) -> upd_ok u ->
+  (o_started ost = true -> o_epoch ost = u_epoch u -> o_prev ost <= u_now u) -> upd_ok u ->
   ~ In EPanic (events (pll_do s u)).
 Proof.
   intros HR HP Hu K.
-  destruct (inv_step s ost u HR HP Hu) as [s2 [evs2 [q2 [o2 [ED2 [HO2 _]]]]]].
-  rewrite ED2 in K. unfold events in K. cbn [fst snd] in K.
-  apply (ost_step_no_panic ost u evs2 o2); [|exact HP|exact HO2|exact K].
-  destruct HR as [[-> _]|[_ [Mo _]]]; [reflexivity|exact Mo].
+  destruct (inv_step s ost u HR HP Hu) as [s2 [evs2 [q2 [ok [o2 [ED2 [_ [_ [NP _]]]]]]]]].
+  rewrite ED2 in K. unfold events in K. cbn [fst snd] in K. exact (NP K).
 Qed.
 
 (* the invariant holds after every prefix of an admissible history *)
-Definition last_now (d : Z) (us : list upd) : Z := fold_left (fun _ u => u_now u) us d.
-
-Lemma last_now_nonempty us : us <> [] -> forall a b, last_now a us = last_now b us.
-Proof. destruct us as [|u r]; [contradiction|]. intros _ a b. reflexivity. Qed.
+Definition last_upd (d : upd) (us : list upd) : upd := fold_left (fun _ u => u) us d.
 
 Lemma reach_from us : forall s o, (Rel0 s o \/ Rel s o) ->
-  (o_started o = true -> nondecreasing_from (o_prev o) us) ->
-  (o_started o = false -> nondecreasing us) ->
+  (o_started o = true -> chain_from (fun g => 0 <= g) (o_epoch o) (o_prev o) us) ->
+  (o_started o = false -> epoch_monotone us) ->
   Forall upd_ok us ->
-  us = [] \/ exists o', Rel (pll_final s us) o' /\ o_prev o' = last_now 0 us.
+  us = [] \/ exists o', Rel (pll_final s us) o' /\
+                        forall d, o_prev o' = u_now (last_upd d us) /\ o_epoch o' = u_epoch (last_upd d us).
 Proof.
   induction us as [|u r IH]; intros s o HR H1 H0 HU; [left; reflexivity|right].
   inversion HU as [|? ? Hu Hr]; subst.
-  assert (HP : o_started o = true -> o_prev o <= u_now u) by (intros S; apply (H1 S)).
-  destruct (inv_step s o u HR HP Hu) as [s' [evs [q [o' [ED [HO HR']]]]]].
-  pose proof (Rel_step_prev s o u s' evs q o' HR HP Hu ED HO HR') as Tn.
-  destruct (Rel_prev s' o' HR') as [S' P'].
-  assert (M' : nondecreasing_from (o_prev o') r).
-  { rewrite P', Tn. destruct (o_started o) eqn:S; [apply (H1 eq_refl)|apply (H0 eq_refl)]. }
+  assert (HP : o_started o = true -> o_epoch o = u_epoch u -> o_prev o <= u_now u).
+  { intros S E. destruct (H1 S) as [A _]. specialize (A E). lia. }
+  destruct (inv_step s o u HR HP Hu) as [s' [evs [q [ok [o' [ED [HO [HR' _]]]]]]]].
+  destruct (step_fields o u evs ok o' HO) as [Pn Pe].
+  destruct (Rel_prev s' o' HR') as [S' _].
+  assert (M' : chain_from (fun g => 0 <= g) (o_epoch o') (o_prev o') r).
+  { rewrite Pn, Pe. destruct (o_started o) eqn:S; [apply (H1 eq_refl)|apply (H0 eq_refl)]. }
   cbn [pll_final]. rewrite ED.
   destruct r as [|u1 r1].
-  - exists o'. split; [exact HR'|]. rewrite P', Tn. reflexivity.
+  - exists o'. split; [exact HR'|]. intros d. split; assumption.
   - destruct (IH s' o' (or_intror HR') (fun _ => M') (fun C => ltac:(congruence)) Hr) as [C|[o2 [HR2 HL]]];
       [discriminate|].
-    exists o2. split; [exact HR2|]. rewrite HL. reflexivity.
+    exists o2. split; [exact HR2|]. intros d. exact (HL u).
 Qed.
 
-Lemma nondecreasing_from_app a us u : nondecreasing_from a (us ++ [u]) ->
-  nondecreasing_from a us /\ last_now a us <= u_now u.
+Lemma chain_from_app P pe pn us u : chain_from P pe pn (us ++ [u]) ->
+  chain_from P pe pn us /\
+  (forall d, u_epoch d = pe -> u_now d = pn ->
+             u_epoch (last_upd d us) = u_epoch u -> P (u_now u - u_now (last_upd d us))).
 Proof.
-  revert a. induction us as [|v r IH]; intros a; cbn [app nondecreasing_from last_now fold_left].
-  - intros [H _]. split; [exact I|exact H].
-  - intros [H1 H2]. destruct (IH _ H2) as [A B]. split; [split; assumption|exact B].
+  revert pe pn. induction us as [|v r IH]; intros pe pn; cbn [app chain_from].
+  - intros [H _]. split; [exact I|]. intros d <- <-. cbn. exact H.
+  - intros [H1 H2]. destruct (IH _ _ H2) as [A B]. split; [split; assumption|].
+    intros d _ _. exact (B v eq_refl eq_refl).
 Qed.
 
-Lemma nondecreasing_app us u : nondecreasing (us ++ [u]) ->
-  nondecreasing us /\ (us <> [] -> last_now 0 us <= u_now u).
+Lemma chain_app P us u : chain P (us ++ [u]) ->
+  chain P us /\ (us <> [] -> forall d, u_epoch (last_upd d us) = u_epoch u -> P (u_now u - u_now (last_upd d us))).
 Proof.
-  destruct us as [|v r]; cbn [app nondecreasing]; [intros _; split; [exact I|contradiction]|].
-  intros H. destruct (nondecreasing_from_app _ _ _ H) as [A B]. split; [exact A|]. intros _. exact B.
+  destruct us as [|v r]; cbn [app chain]; [intros _; split; [exact I|contradiction]|].
+  intros H. destruct (chain_from_app _ _ _ _ _ H) as [A B]. split; [exact A|]. intros _ d.
+  exact (B v eq_refl eq_refl).
 Qed.
 
-Lemma history_state us u : nondecreasing (us ++ [u]) -> Forall upd_ok (us ++ [u]) ->
+Lemma history_state us u : epoch_monotone (us ++ [u]) -> Forall upd_ok (us ++ [u]) ->
   exists o, (Rel0 (pll_final pll_init us) o \/ Rel (pll_final pll_init us) o) /\
-            (o_started o = true -> o_prev o <= u_now u) /\ upd_ok u.
+            (o_started o = true -> o_epoch o = u_epoch u -> o_prev o <= u_now u) /\ upd_ok u.
 Proof.
   intros HM HU. apply Forall_app in HU. destruct HU as [HU Hu]. inversion Hu as [|? ? Hu' _]; subst.
-  destruct (nondecreasing_app us u HM) as [HM1 HM2].
+  destruct (chain_app _ us u HM) as [HM1 HM2].
   assert (R0 : Rel0 pll_init ost_init) by (split; [reflexivity|split; [reflexivity|apply NI_init]]).
   destruct (reach_from us pll_init ost_init (or_introl R0)) as [->|[o [HR HL]]];
     [discriminate|intros _; exact HM1|exact HU| |].
   - exists ost_init. split; [left; exact R0|]. split; [discriminate|exact Hu'].
   - exists o. split; [right; exact HR|]. split; [|exact Hu'].
-    intros _. rewrite HL. apply HM2. intros ->.
-    cbn [pll_final] in HR. destruct HR as [_ [_ [_ [_ [_ [HMd _]]]]]].
-    cbn [pll_init p_mode] in HMd. lia.
+    intros _ Eo. destruct (HL u) as [Ln Le]. rewrite Ln.
+    assert (NE : us <> []).
+    { intros ->. cbn [pll_final] in HR. destruct HR as [_ [_ [_ [_ [_ [HMd _]]]]]].
+      cbn [pll_init p_mode] in HMd. lia. }
+    specialize (HM2 NE u). rewrite <- Le in HM2. specialize (HM2 Eo). lia.
 Qed.
 
 (* statements over whole histories: s is the state after the history us, u the next update *)
-Lemma history_no_panic us u : nondecreasing (us ++ [u]) -> Forall upd_ok (us ++ [u]) ->
+Lemma history_no_panic us u : epoch_monotone (us ++ [u]) -> Forall upd_ok (us ++ [u]) ->
   ~ In EPanic (events (pll_do (pll_final pll_init us) u)).
 Proof.
   intros HM HU. destruct (history_state us u HM HU) as [o [HR [HP Hu]]].
   exact (no_panic_step _ o u HR HP Hu).
 Qed.
 
-Lemma history_adjust_sane us u : nondecreasing (us ++ [u]) -> Forall upd_ok (us ++ [u]) ->
+Lemma history_adjust_sane us u : epoch_monotone (us ++ [u]) -> Forall upd_ok (us ++ [u]) ->
   forall o d f, In (EAdjust o d f) (events (pll_do (pll_final pll_init us) u)) ->
   adjust_sane (pll_final pll_init us) u o d f.
 Proof.
@@ -818,14 +839,14 @@ Proof.
 Qed.
 
 (* the time of the previous update is what the state remembers *)
-Lemma history_prev_time us : us <> [] -> nondecreasing us -> Forall upd_ok us ->
-  p_t (pll_final pll_init us) = last_now 0 us.
+Lemma history_prev_time us : us <> [] -> epoch_monotone us -> Forall upd_ok us ->
+  forall d, p_t (pll_final pll_init us) = u_now (last_upd d us) /\ p_epoch (pll_final pll_init us) = u_epoch (last_upd d us).
 Proof.
-  intros NE HM HU.
+  intros NE HM HU d.
   assert (R0 : Rel0 pll_init ost_init) by (split; [reflexivity|split; [reflexivity|apply NI_init]]).
   destruct (reach_from us pll_init ost_init (or_introl R0)) as [C|[o [HR HL]]];
     [discriminate|intros _; exact HM|exact HU|contradiction|].
-  destruct (Rel_prev _ _ HR) as [_ P]. congruence.
+  destruct (Rel_prev _ _ HR) as [_ [P E]]. destruct (HL d) as [Ln Le]. split; congruence.
 Qed.
 
 (* the call made by one update of the start-up sequence, in every state *)
@@ -872,7 +893,7 @@ Proof.
   destruct (track_numeric s u (inv (u_off u)) HNI Hw (inv_in_i64 _ Hoff) Hm Hg)
     as [s' [evs [q [ED [_ [_ [_ [_ [_ HE]]]]]]]]].
   rewrite ED. unfold events. cbn [fst snd].
-  destruct HE as [[-> G0]|[oo [dd [ff [-> [Ff HN]]]]]].
+  destruct HE as [[-> G0]|[oo [dd [ff [-> [Ff [HN _]]]]]]].
   - split; [reflexivity|]. intros L. exfalso.
     assert (0 < tsub (u_now u) (p_t s)); [|lia].
     unfold tsub, sat64, min_i64, max_i64.
@@ -886,7 +907,7 @@ Proof.
     cbn in N2. unfold sec_ns in *. lia.
 Qed.
 
-Lemma history_track_calls us u : nondecreasing (us ++ [u]) -> Forall upd_ok (us ++ [u]) ->
+Lemma history_track_calls us u : epoch_monotone (us ++ [u]) -> Forall upd_ok (us ++ [u]) ->
   let s := pll_final pll_init us in
   p_epoch s = u_epoch u -> p_mode s = 3 ->
   (u_now u = p_t s -> events (pll_do s u) = []) /\
@@ -895,7 +916,7 @@ Proof.
   intros HM HU s E M. destruct (history_state us u HM HU) as [o [HR [HP Hu]]].
   destruct HR as [[_ [M0 _]]|HR]; [fold s in M0; lia|].
   apply (track_calls_step s o u HR); try assumption.
-  apply HP. destruct HR as [S _]. exact S.
+  destruct HR as [S [_ [Ee _]]]. apply HP; [exact S|]. fold s in Ee. congruence.
 Qed.
 
 (* float-level slew bound: whatever p is, the clamped value lies within
@@ -909,18 +930,48 @@ Proof.
 Qed.
 
 (* the hypotheses of the history theorems are satisfiable by a history that
-   steps once and then slews *)
+   steps once (the clock then reports a new epoch and a reading that went
+   BACKWARDS by the step) and then slews *)
 Definition shape (e : event) : Z := match e with EStep _ => 1 | EAdjust _ _ _ => 2 | EPanic => 9 end.
 Definition example_history : list upd :=
-  [mkUpd 0 0 5000000 (f_of_int 10) (f_of_int 1); mkUpd 3000000000 0 5000000 (f_of_int 10) (f_of_int 1);
-   mkUpd 10000000000 1 0 (f_of_int 10) (f_of_int 1); mkUpd 13000000000 1 0 (f_of_int 10) (f_of_int 1);
-   mkUpd 20000000000 1 0 (f_of_int 10) (f_of_int 1); mkUpd 22000000000 1 40000000 (f_of_int 200) (f_of_int 1)].
+  [mkUpd 100000000000 0 (-5000000000) (f_of_int 10) (f_of_int 1); mkUpd 103000000000 0 (-5000000000) (f_of_int 10) (f_of_int 1);
+   mkUpd 99000000000 1 0 (f_of_int 10) (f_of_int 1); mkUpd 102000000000 1 0 (f_of_int 10) (f_of_int 1);
+   mkUpd 109000000000 1 0 (f_of_int 10) (f_of_int 1); mkUpd 111000000000 1 40000000 (f_of_int 200) (f_of_int 1)].
 
 Example hypotheses_satisfiable :
-  nondecreasing example_history /\ Forall upd_ok example_history /\
+  epoch_monotone example_history /\ gaps_below_wrap example_history /\ Forall upd_ok example_history /\
   map (fun p => map shape (snd p)) (pll_run pll_init example_history) = [[]; [1]; []; []; []; [2]].
+Proof.
+  split; [cbn; unfold wrap_gap_ns, sec_ns; lia|]. split; [cbn; unfold wrap_gap_ns, sec_ns; lia|]. split.
+  - repeat constructor; try (unfold in_i64, min_i64, max_i64; cbn; lia); vm_compute; reflexivity.
+  - vm_compute. reflexivity.
+Qed.
+
+(* the known finding: more than 9223372036 s between two tracking updates and
+   the requested duration is int64(ceil(dt)*1e9) wrapped to MinInt64 *)
+Definition wrap_history : list upd :=
+  [mkUpd 0 0 1000 (f_of_int 10) (f_of_int 1); mkUpd 3000000000 0 1000 (f_of_int 10) (f_of_int 1);
+   mkUpd 10000000000 0 1000 (f_of_int 10) (f_of_int 1)].
+Definition wrap_update : upd := mkUpd 9223372047000000000 0 1000 (f_of_int 10) (f_of_int 1).
+
+Lemma duration_wrap_witness :
+  epoch_monotone (wrap_history ++ [wrap_update]) /\ Forall upd_ok (wrap_history ++ [wrap_update]) /\
+  map (fun e => match e with EAdjust o d _ => (o, d) | _ => (0, 0) end)
+      (events (pll_do (pll_final pll_init wrap_history) wrap_update)) = [(29, min_i64)].
 Proof.
   split; [cbn; lia|]. split.
   - repeat constructor; try (unfold in_i64, min_i64, max_i64; cbn; lia); vm_compute; reflexivity.
   - vm_compute. reflexivity.
+Qed.
+
+Lemma duration_positive_refuted :
+  exists us u o d f, epoch_monotone (us ++ [u]) /\ Forall upd_ok (us ++ [u]) /\
+    In (EAdjust o d f) (events (pll_do (pll_final pll_init us) u)) /\ d <= 0.
+Proof.
+  destruct duration_wrap_witness as [HM [HU HE]].
+  destruct (events (pll_do (pll_final pll_init wrap_history) wrap_update)) as [|[x|o d f|] [|e r]] eqn:E;
+    try discriminate HE.
+  exists wrap_history, wrap_update, o, d, f. rewrite E.
+  split; [exact HM|]. split; [exact HU|]. split; [left; reflexivity|].
+  cbn [map] in HE. injection HE as _ Hd. rewrite Hd. unfold min_i64. lia.
 Qed.
